@@ -62,7 +62,7 @@ def run(tier, seed, jobs):
     A = "A"
     core = [{"s": A, "op": "del", "set": "*"}, {"s": A, "op": "del", "set": "1"}, {"s": A, "op": "append", "m": "INBOX"},
             {"s": "env", "op": "deliver", "m": "INBOX"}, {"s": "env", "op": "restart"}, {"s": "env", "op": "poll", "dt": 21.0}]
-    return run_h(PROP, RULES, [{"cfg_ref": ("vf.props.c02", "cfg", []), "alphabet": alphabet(tier), "depth": depth, "label": "INBOX(2),a,a/b"},
+    res = run_h(PROP, RULES, [{"cfg_ref": ("vf.props.c02", "cfg", []), "alphabet": alphabet(tier), "depth": depth, "label": "INBOX(2),a,a/b"},
                                {"cfg_ref": ("vf.props.c02", "cfg", []), "alphabet": core, "depth": 5 if tier == "quick" else 6,
                                 "label": "INBOX selected; core alphabet (messages go, come, pack, restart), deep"}],
                  ("C02",), jobs, seed,
@@ -70,9 +70,34 @@ def run(tier, seed, jobs):
                   "restart = orderly shutdown() + real start-up sequence on the same directory",
                   "RENAME onto a formerly used name only requires (name, UIDVALIDITY) pairs to stay unique"],
                  time_budget=170 if tier == "quick" else 900)
+    # schedule part: COPYUID names the messages actually created even when an MH agent drops a message into the
+    # destination while COPY / MOVE write there (scenarios shared with C13)
+    from ..explore import sched
+    from . import c13
+
+    per = []
+    for sc in c13.s_scenarios():
+        if not sc["name"].startswith("deliver-into-dst"):
+            continue
+        r = sched.explore(sc, 1 if tier == "quick" else 2, jobs, seed, max_exec=20000 if tier == "quick" else 80000)
+        res.failures.extend(f for f in r["failures"] if f.rule.startswith("C02."))
+        res.coverage["states"] += r["executions"]
+        res.coverage["transitions"] += r["steps"]
+        res.coverage["traces_validated_against_impl"] += r["executions"]
+        per.append({"scenario": sc["name"], "executions": r["executions"], "bound": r["bound_completed"], "outcomes": r["distinct_outcomes"], "cap": r["cap"]})
+    res.coverage["schedule_part"] = per
+    res.assumptions.append("schedule part: one delivery into the destination at any scheduling point of COPY 1:2 / MOVE 1 (<=1, thorough <=2 deviations): "
+                           "every COPYUID destination UID holds the source's content in the final store")
+    return res
 
 
 def replay(rec):
+    rp = rec["replay"]
+    if rp.get("driver") == "s":
+        from ..explore import sched
+
+        _p, _n, _sig, fails, _st = sched.run_one((rp["scenario"], rp["choices"]))
+        return [f for f in fails if f.rule.startswith("C02.")]
     from .hcommon import replay_h
 
     return replay_h("C02.", rec)
